@@ -45,8 +45,8 @@ META = {
                     'CONTINUE / other (all three explored)',
                     'non-auth exceptions (bad hex in DATA, non-ASCII command '
                     'bytes) reach the reactor, which closes the connection'],
-    'decided': ['D1 safety of authentication', 'D2 response table (the command word is taken exactly; a mechanism\'s cleanup runs once per exchange, so the reject path always answers)',
-                'D3 limits (rejections - the count is never lowered -, first byte, line length)',
+    'decided': ['D1 safety of authentication; what runs once a client is accepted cannot fail for a peer without a local user entry', 'D2 response table (the command word is taken exactly; a mechanism\'s cleanup runs once per exchange, so the reject path always answers)',
+                'D3 limits (rejections - the count is never lowered -, first byte, line length); the text of a failure is a string (the handler reports before it closes)',
                 'D4 a mechanism answers OK only on its accepting branch '
                 '(cookie: computed hash == received hash, no exception '
                 'swallowed on the way; EXTERNAL: peer credentials present)',
@@ -311,6 +311,9 @@ def run(ctx):
     _line_mode_limits(ctx)
     _mechanism_acceptance(ctx, mechs)
     _cleanup_once(ctx, mechs)
+    _acceptance_cannot_fail(ctx)
+    from .common import failure_text_is_text
+    failure_text_is_text(ctx, 'C06.D3', 'the bus never closes the connection it decided to close')
     _text_bytes_agreement(ctx, mechs)
     from .c09 import per_instance_registries
     per_instance_registries(ctx, 'C06.D1', ('authentication', 'protocol', 'bus'),
@@ -565,6 +568,77 @@ def _mechanism_acceptance(ctx, mechs):
     if n_ok < 3:
         raise AnalysisError('only %d accepting path(s) found in the '
                             'mechanism classes' % n_ok)
+
+
+def _acceptance_cannot_fail(ctx):
+    """"A spec-conforming client presenting acceptable credentials is
+    accepted": after BEGIN the protocol calls connectionAuthenticated() of
+    the bus connection.  What it does there must not depend on the peer
+    having an entry in the local user database - ANONYMOUS peers have none:
+    a getpwnam/getpwuid lookup on that path raises KeyError out of
+    dataReceived, the accepted client never gets its connection."""
+    prog = ctx.prog
+    hook = prog.func('bus.BusProtocol.connectionAuthenticated')
+    seen, work, n = set(), [hook], 0
+    while work:
+        f = work.pop()
+        if f.qualname in seen or len(seen) > 12:
+            continue
+        seen.add(f.qualname)
+        trys = []
+
+        def walk(node, guarded):
+            if isinstance(node, ast.Try):
+                names = set()
+                for h in node.handlers:
+                    if h.type is None:
+                        names.add('*')
+                    else:
+                        for x in ast.walk(h.type):
+                            if isinstance(x, ast.Name):
+                                names.add(x.id)
+                g2 = guarded or bool(names & {'*', 'KeyError', 'LookupError',
+                                              'Exception', 'BaseException'})
+                for st in node.body:
+                    walk(st, g2)
+                for part in (node.handlers, node.orelse, node.finalbody):
+                    for st in part:
+                        walk(st, guarded)
+                return
+            if isinstance(node, ast.Call):
+                fn = node.func
+                nm = fn.attr if isinstance(fn, ast.Attribute) else (
+                    fn.id if isinstance(fn, ast.Name) else None)
+                if nm in ('getpwnam', 'getpwuid', 'getgrnam', 'getgrgid'):
+                    trys.append((node.lineno, nm, guarded))
+                # callees inside the bus module
+                t = None
+                if isinstance(fn, ast.Name):
+                    t = f.module.funcs.get(fn.id)
+                elif isinstance(fn, ast.Attribute) and \
+                        isinstance(fn.value, ast.Name) and \
+                        fn.value.id == 'self' and f.cls is not None:
+                    t = prog.lookup_method(f.cls, fn.attr)
+                if t is not None and t.module.name == 'bus' and \
+                        not guarded:
+                    work.append(t)
+            if isinstance(node, (ast.FunctionDef, ast.Lambda)) and \
+                    node is not f.node:
+                return
+            for ch in ast.iter_child_nodes(node):
+                walk(ch, guarded)
+        walk(f.node, False)
+        for line, nm, guarded in trys:
+            n += 1
+            ctx.ob('C06.D1', f.qualname, 'acceptance-cannot-fail:%s' % nm,
+                   guarded, '%s() is called at line %d on the path that runs '
+                   'when a client has been accepted, without a handler for '
+                   'KeyError: a peer whose name is not in the user database '
+                   '(ANONYMOUS) is accepted by the authenticator and then '
+                   'dropped by the exception' % (nm, line))
+    ctx.ob('C06.D1', hook.qualname, 'acceptance-hook-analysed', True,
+           '%d function(s), %d user-database lookup(s)' % (len(seen), n),
+           nontrivial=False)
 
 
 def _cleanup_once(ctx, mechs):
